@@ -2,10 +2,12 @@
 (DESIGN C05-H, C06-L, C06-F, C07-M, C07-N).  The whole-visitor statements stay bounded."""
 import itertools
 import json
+import re as _re
 
 import z3
 
-from vfkit import core, frame, model, sym
+from vfkit import core, ext, frame, model, sym
+from vfkit import relang as RL
 from vfkit.sym import EngineUnsupported, S, SymBool, SymStr, ctx
 
 from . import c08
@@ -304,6 +306,9 @@ def same_json(a, b):
     return a == b and type(a) is type(b)
 
 
+UNESCAPED_WILDCARD = RL.to_z3(RL.cat(ext.full_language_rx(r"(?:\\.|[^\\*?])*[*?]", _re.DOTALL), RL.ALL))
+
+
 def leaf_cases():
     cases = []
     optsets = {"none": {}, "options": {"t": {"analyzer": "english"}}, "match_type": {"t": {"match_type": "match_phrase", "x": 1}},
@@ -333,8 +338,10 @@ def leaf_cases():
                         changed = frame.diff(before, frame.snapshot())
                         # on this path the code has decided whether q is the star and whether it has a wildcard
                         star = _decided(cx, q.t == z3.StringVal("*"))
-                        wildt = z3.InRe(q.t, T.Term.WILDCARDS_PATTERN.contains_re())
-                        wild = _decided(cx, wildt)
+                        # "wildcard forms for unescaped * or ?" (statement): a backslash escapes the character after it
+                        wild = _decided(cx, z3.InRe(q.t, UNESCAPED_WILDCARD))
+                        if wild is None:
+                            wild = cx.decide(z3.InRe(q.t, UNESCAPED_WILDCARD))
                         if star is None:
                             star = False if not _is_star_path(cx, q) else True
                         exp = expected_leaf("word", q, "t", analysed, bool(wild), bool(star), opts.get("t", {}), fuzz, boost,
@@ -352,8 +359,13 @@ def leaf_cases():
             before = frame.snapshot()
             p1 = ET.EPhrase(phrase='"a  b\nc"', no_analyze=[] if analysed else ["t"], fields=["t"], field_options={})
             p2 = ET.EPhrase(phrase='"x y"', no_analyze=[] if analysed else ["t"], fields=["t"], field_options={})
+            p3 = ET.EPhrase(phrase='"he said \\"hello\\""', no_analyze=[] if analysed else ["t"], fields=["t"], field_options={})
+            p4 = ET.EPhrase(phrase='"\\"q\\" x"', no_analyze=[] if analysed else ["t"], fields=["t"], field_options={})
             p1.slop = 2.0
             j1, j2 = p1.json, p2.json
+            if analysed:
+                out.append(("C06-L/EPhrase/only-the-enclosing-quotes-are-stripped",
+                            p3.json == {"match_phrase": {"t": {"query": 'he said \\"hello\\"'}}} and p4.json == {"match_phrase": {"t": {"query": '\\"q\\" x'}}}))
             changed = frame.diff(before, frame.snapshot())
             out.append(("C06-L/EPhrase/%s/quotes-stripped-blanks-folded-slop-on-this-item-only" % analysed,
                         j1 == {"match_phrase": {"t": {"query": "a b c", "slop": 2.0}}} and j2 == {"match_phrase": {"t": {"query": "x y"}}}
